@@ -105,6 +105,11 @@ pub fn random_definitions(seed: u64, n: usize) -> Vec<Definition> {
                 3 => (true, false),
                 _ => (true, true),
             };
+            if k % 6 == 5 {
+                // rich definitions: subpatterns, error types, extras, lifetimes, callbacks of every form
+                let src = defs::rich_def_source(&mut rng, &format!("Rnd{}", k));
+                return Definition { id: format!("random/{}", k), origin: "random".into(), source: src };
+            }
             let d = if k % 5 == 4 {
                 // several related priority conflicts at once (rejected definitions: the error text is output too)
                 defs::conflict_family_def(&mut rng, &format!("Rnd{}", k))
